@@ -362,13 +362,28 @@ func (g *bodyGen) body(k, v string, ik iterKind, n, depth int) []model.Node {
 			if depth > 0 {
 				g.vars++
 				iv := fmt.Sprintf("w%d", g.vars)
+				ik2 := ""
+				switch rapid.IntRange(0, 5).Draw(t, "shadow") {
+				case 0: // the inner loop REUSES the outer loop's value name: afterwards the outer value must be back
+					iv = v
+				case 1:
+					if k != "" {
+						ik2 = k // ... or its key name
+					}
+				}
 				inner := iterKinds[6] // array literal of ints
 				var iter model.Expr = inner.expr(rapid.IntRange(0, 3).Draw(t, "inner_n"))
 				if rapid.Bool().Draw(t, "ys") {
 					iter = model.Var{Name: "ys"}
 				}
-				ib := g.body("", iv, iterKind{elem: "int", key: "int"}, 3, depth-1)
-				out = append(out, model.EmitFor{For: &model.For{Val: iv, Iter: iter, Body: ib}})
+				ib := g.body(ik2, iv, iterKind{elem: "int", key: "int"}, 3, depth-1)
+				out = append(out, model.EmitFor{For: &model.For{Key: ik2, Val: iv, Iter: iter, Body: ib}})
+				if iv == v || ik2 != "" { // read the outer variables again after the inner loop
+					out = append(out, model.Emit{X: model.Var{Name: v}})
+					if k != "" {
+						out = append(out, model.Emit{X: model.Var{Name: k}})
+					}
+				}
 			} else {
 				out = append(out, g.text())
 			}
@@ -448,10 +463,14 @@ func fixedBodies(ik iterKind) [][]model.Node {
 		{eif(model.Lit{V: true}, sif(is2, cnt), T("y")), T("b")},
 		{T("a"), model.EmitIf{If: &model.If{Cond: is2, Then: []model.Node{T("x")}, HasElse: true, Else: []model.Node{T("e"), cnt}}}, T("b")},
 		{model.Code{S: model.LetS{Name: "t", X: model.Var{Name: "v"}}}, model.Emit{X: model.Var{Name: "t"}}, sif(is2, brk)},
+		// an inner loop that reuses the outer loop's variable names; the outer values are read again afterwards
+		{v, model.EmitFor{For: &model.For{Val: "v", Iter: model.Var{Name: "ys"}, Body: []model.Node{T("i"), v}}}, T("|"), v, sif(is2, brk), T(",")},
+		{k, model.EmitFor{For: &model.For{Key: "k", Val: "v", Iter: model.Var{Name: "ys"}, Body: []model.Node{k}}}, T("|"), k, T(":"), v, sif(is2, cnt), T(",")},
+		{eif(model.Lit{V: true}, model.EmitFor{For: &model.For{Val: "v", Iter: model.Var{Name: "ys"}, Body: []model.Node{T("i")}}}), v, T(",")},
 	}
 }
 
-const rule = "iterables: []int, []string, []interface{}, [N]int, *[]int, *[N]string, array literal, map[string]int, map[int]string, map[string]interface{}, custom Iterator, range/between/until, literal nil, helper returning nil, and five non-iterables, each with 0..5 elements (thorough 0..6). (E) every iterable x length x 21 fixed bodies (break/continue at the start, middle and end of the body, inside a silent if, inside an emitting if after text, two ifs deep, in an else branch, unconditional with dead code after, in an inner loop only, AFTER a nested loop, after a function literal) x one-/two-variable form. (R) random bodies from the same grammar nested to depth 2. Oracle: the reference interpreter (body once per element in index order, key = index / map key / running count, continue/break keep what the iteration produced, nil renders nothing, non-iterable is an error). For maps each iteration starts with a key marker; the visiting order is read off the output, checked duplicate-free over the key set, and the model is run in that order. Non-trivial = the body has a control statement or a nested loop, or the iterable is a map / pointer / iterator / nil / non-iterable; distinct by (iterable, length, template)."
+const rule = "iterables: []int, []string, []interface{}, [N]int, *[]int, *[N]string, array literal, map[string]int, map[int]string, map[string]interface{}, custom Iterator, range/between/until, literal nil, helper returning nil, and five non-iterables, each with 0..5 elements (thorough 0..6). (E) every iterable x length x 24 fixed bodies (break/continue at the start, middle and end of the body, inside a silent if, inside an emitting if after text, two ifs deep, in an else branch, unconditional with dead code after, in an inner loop only, AFTER a nested loop, after a function literal; inner loops that REUSE the outer loop's variable names with the outer values read again afterwards) x one-/two-variable form. (R) random bodies from the same grammar nested to depth 2. Oracle: the reference interpreter (body once per element in index order, key = index / map key / running count, continue/break keep what the iteration produced, nil renders nothing, non-iterable is an error). For maps each iteration starts with a key marker; the visiting order is read off the output, checked duplicate-free over the key set, and the model is run in that order. Non-trivial = the body has a control statement or a nested loop, or the iterable is a map / pointer / iterator / nil / non-iterable; distinct by (iterable, length, template)."
 
 func setup(t *testing.T) *vk.Run {
 	r := vk.Start(t, "C08", rule,
@@ -513,7 +532,7 @@ func TestProp(t *testing.T) {
 			}
 		}
 	}
-	r.Subspace(fmt.Sprintf("%d iterable kinds x lengths 0..%d x 21 fixed bodies x one/two loop variables", len(iterKinds), maxN), cells, true)
+	r.Subspace(fmt.Sprintf("%d iterable kinds x lengths 0..%d x 24 fixed bodies x one/two loop variables", len(iterKinds), maxN), cells, true)
 
 	r.Rapid("bodies", r.Pick(6000, 80000), func(t *rapid.T) *vk.Fail {
 		kind := rapid.IntRange(0, len(iterKinds)-1).Draw(t, "iterable")
